@@ -674,7 +674,7 @@ impl LineBuffer {
         } else {
             return None;
         };
-        let start = self.buf[..self.pos].rfind('\n').unwrap_or(0);
+        let start = self.buf[..self.pos].rfind('\n').map_or(0, |i| i + 1);
         for _ in 0..n {
             if let Some(off) = self.buf[end..].find('\n') {
                 end = end + off + 1;
@@ -1103,6 +1103,9 @@ impl LineBuffer {
             Movement::ViCharSearch(n, cs) => self.delete_to(cs, n, dl),
             Movement::LineUp(n) => {
                 if let Some((start, end)) = self.n_lines_up(n) {
+                    // the current line is the last one: remove the preceding line break instead
+                    let last = self.buf[self.pos..].find('\n').is_none();
+                    let start = if last && start > 0 { start - 1 } else { start };
                     self.delete_range(start..end, dl);
                     true
                 } else {
@@ -1111,6 +1114,9 @@ impl LineBuffer {
             }
             Movement::LineDown(n) => {
                 if let Some((start, end)) = self.n_lines_down(n) {
+                    // the range reaches the last line: remove the preceding line break instead
+                    let last = self.buf[start..end].matches('\n').count() <= usize::from(n);
+                    let start = if last && start > 0 { start - 1 } else { start };
                     self.delete_range(start..end, dl);
                     true
                 } else {
